@@ -302,6 +302,10 @@ func checkC14(rc *RunCtx) {
 		{"batched-dup", func(id uint64) ([]uint64, []uint64) { return []uint64{id, id}, []uint64{0, 0} }},
 		{"wrong-index", func(id uint64) ([]uint64, []uint64) { return []uint64{id}, []uint64{1} }},
 		{"unknown-id", func(id uint64) ([]uint64, []uint64) { return []uint64{id + 1000}, []uint64{0} }},
+		// never-reported ids whose query ids sort directly before / after the reported one in the aggregate store
+		{"unknown-id-sorting-before", func(id uint64) ([]uint64, []uint64) { b, _ := DepositIDsAround(id); return []uint64{b}, []uint64{0} }},
+		{"unknown-id-sorting-after", func(id uint64) ([]uint64, []uint64) { _, a := DepositIDsAround(id); return []uint64{a}, []uint64{0} }},
+		{"unknown-id-sorting-before-index1", func(id uint64) ([]uint64, []uint64) { b, _ := DepositIDsAround(id); return []uint64{b}, []uint64{1} }},
 	}
 	ages := []time.Duration{12*time.Hour - time.Millisecond, 12 * time.Hour, 12*time.Hour + time.Millisecond}
 	if rc.Replay == nil || rc.Replay.Scenario == "claim-product" {
